@@ -59,20 +59,68 @@ Section Bisim.
   Hypothesis all2_complete : forall s, validb s = true -> In s all2.
   Variable f : m_st M2 -> outcome (m_st M1).   (* the implementation state matching a spec state *)
 
+  Definition step_ok (s2 : m_st M2) (s1 : m_st M1) (i : Inp) : bool :=
+    match m_step M2 s2 i, m_step M1 s1 i with
+    | Ret (s2', o2), Ret (s1', o1) =>
+        oeqb o1 o2 && validb s2' &&
+        match f s2' with Ret s1'' => eqb1 s1' s1'' | Panic => false end
+    | _, _ => false
+    end.
+
   Definition closed_at (s2 : m_st M2) : bool :=
     match f s2 with
-    | Ret s1 =>
-        forallb (fun i =>
-          match m_step M2 s2 i, m_step M1 s1 i with
-          | Ret (s2', o2), Ret (s1', o1) =>
-              oeqb o1 o2 && validb s2' &&
-              match f s2' with Ret s1'' => eqb1 s1' s1'' | Panic => false end
-          | _, _ => false
-          end) all_in
+    | Ret s1 => forallb (step_ok s2 s1) all_in
     | Panic => false
     end.
 
+  (* the (spec state, input) cells at which the closure check fails: the search for a failing input *)
+  Definition open_cells : list (m_st M2 * Inp) :=
+    flat_map (fun s2 => match f s2 with
+                        | Ret s1 => map (fun i => (s2, i)) (filter (fun i => negb (step_ok s2 s1 i)) all_in)
+                        | Panic => map (fun i => (s2, i)) (firstn 1 all_in)
+                        end) all2.
+
   Definition closedb : bool := forallb closed_at all2.
+
+  (* From a pair of states that the closure check could not match, look for inputs on which the two
+     machines visibly differ (an output differs or the implementation panics).  Only pairs that are
+     still unmatched are followed, so the frontier stays small.  Paths are kept reversed. *)
+  Fixpoint find_mismatch (fuel : nat) (frontier : list (list Inp * m_st M2 * m_st M1)) : option (list Inp) :=
+    match fuel with
+    | O => None
+    | S fuel' =>
+        let step1 (x : list Inp * m_st M2 * m_st M1) (i : Inp) : option (list Inp) + list (list Inp * m_st M2 * m_st M1) :=
+          let '(path, s2, s1) := x in
+          match m_step M2 s2 i, m_step M1 s1 i with
+          | Ret (s2', o2), Ret (s1', o1) =>
+              if oeqb o1 o2 then
+                if match f s2' with Ret s1'' => eqb1 s1' s1'' | Panic => false end
+                then inr [] else inr [(i :: path, s2', s1')]
+              else inl (Some (i :: path))
+          | Ret _, Panic => inl (Some (i :: path))
+          | Panic, _ => inr []
+          end in
+        let results := flat_map (fun x => map (step1 x) all_in) frontier in
+        match find (fun r => match r with inl _ => true | inr _ => false end) results with
+        | Some (inl r) => r
+        | _ =>
+            let next := flat_map (fun r => match r with inr l => l | inl _ => [] end) results in
+            match next with [] => None | _ => find_mismatch fuel' next end
+        end
+    end.
+
+  Definition explain_cell (fuel : nat) (c : m_st M2 * Inp) : option (list Inp) :=
+    let '(s2, i) := c in
+    match f s2 with
+    | Ret s1 =>
+        match m_step M2 s2 i, m_step M1 s1 i with
+        | Ret (s2', o2), Ret (s1', o1) =>
+            if oeqb o1 o2 then option_map (@rev Inp) (find_mismatch fuel [([i], s2', s1')]) else Some [i]
+        | Ret _, Panic => Some [i]
+        | Panic, _ => None
+        end
+    | Panic => Some []
+    end.
 
   Theorem bisim : closedb = true ->
     forall is, Forall (fun i => In i all_in) is ->
@@ -84,7 +132,7 @@ Section Bisim.
     - exists s2, s1, []. simpl. auto.
     - unfold closedb in Hc. rewrite forallb_forall in Hc.
       pose proof (Hc s2 (all2_complete s2 Hv)) as Hs. unfold closed_at in Hs. rewrite Hf in Hs.
-      rewrite forallb_forall in Hs. specialize (Hs i Hi).
+      rewrite forallb_forall in Hs. specialize (Hs i Hi). unfold step_ok in Hs.
       destruct (m_step M2 s2 i) as [[s2' o2]|] eqn:E2; [|discriminate].
       destruct (m_step M1 s1 i) as [[s1' o1]|] eqn:E1'; [|discriminate].
       apply andb_prop in Hs as [Hs Hf']. apply andb_prop in Hs as [Ho Hv'].
